@@ -206,6 +206,14 @@ func genC19(r *rand.Rand, t *Trace, thorough bool) {
 			ids[i] = uint32(1 + r.Intn(idRange))
 			scs[i] = rndScore32(r, special)
 		}
+		if it%4 == 2 {
+			// every id once (the single-query shape): nothing to combine, but still to be put in order
+			perm := r.Perm(n)
+			for i := 0; i < n; i++ {
+				ids[i] = uint32(1 + perm[i])
+			}
+			t.Stat("agg.all_ids_distinct")
+		}
 		if it%3 == 1 && n >= 2 {
 			// near ties: scores one or a few units in the last place apart (or 1e-7 apart near zero) are NOT
 			// ties -- the better one comes first whatever the ids are
@@ -306,6 +314,9 @@ func genC19(r *rand.Rand, t *Trace, thorough bool) {
 				cfg.TextWeight = 0
 			} else {
 				cfg.VectorWeight = 0
+			}
+			if r.Intn(3) == 0 {
+				cfg.VectorWeight, cfg.TextWeight = 0, 0 // both: every id of the union with score 0
 			}
 			t.Stat("fusion.zero_weight")
 		}
